@@ -685,11 +685,20 @@ def wiring_obligations(ctx, rule):
     rg = evaluate(repo, bng)
     ext = [t for t, _, _ in rg.calls if t[1][0] == "a" and t[1][2] == "extend"]
     ok = False
+    node_t = ("iter", n("nodes"))
+    src = ("call", ("a", node_t, "all_input_nodes"), (), ())
     if len(ext) == 1 and ext[0][2] and ext[0][2][0][0] == "comp":
         comp = ext[0][2][0]
-        node_t = ("iter", n("nodes"))
-        src = ("call", ("a", node_t, "all_input_nodes"), (), ())
         ok = comp[3][0][1] == src and comp[2] == ("tuple", (("iter", src), node_t))
+    elif not ext:
+        # the loop + extend(comprehension) in its normal form: one comprehension over
+        # (node, input) pairs
+        edges_t = [x for x in subterms(rg.ret() or ()) if x[0] == "comp" and x[1] == "list"
+                   and len(x[3]) == 2]
+        ok = (len(edges_t) >= 1 and edges_t[0][3][0][1] == n("nodes")
+              and edges_t[0][3][1][1] == src and not edges_t[0][3][0][2]
+              and not edges_t[0][3][1][2]
+              and edges_t[0][2] == ("tuple", (("iter", src), node_t)))
     ctx.ob(rule, bng, "graph edges are (input, node) for every input in "
                           "node.all_input_nodes() -- the same relation as the outputs", ok,
            detail=short(ext[0]) if ext else "", stmt="graph edges")
